@@ -46,12 +46,16 @@ ObsInit == [open |-> 0,            \* index of the poll call in progress (0 = no
             cpoll |-> {},          \* futures that were surely in the polling stage when their pending cancel() was issued
 
             want |-> -1,           \* a poll is owed since this time (eligibility / notify), -1: none owed
+            pend |-> {},           \* futures the poll thread is in the middle of resolving (a yield that has not returned,
+                                   \* the futures a raising poll function was shown and that are not terminal yet)
+            lastblk |-> 0,         \* latest time at which one of those was inside a client's cancel() - whose (user-supplied,
+                                   \* possibly slow) cancel function keeps the future's lock, so the poll thread had to wait
             down |-> FALSE]
 
 Pairs(xs) == [i \in 1..(Len(xs) \div 2) |-> <<xs[2 * i - 1], xs[2 * i]>>]
 Shown(xs) == [i \in 1..(Len(xs) \div 2) |-> xs[2 * i - 1]]
 
-ObsNext(st, e) ==
+ObsNext0(st, e) ==
   CASE e.ev = "InvokeEnd" -> IF e.a = 0 THEN [st EXCEPT !.res = Put(@, e.f, e.b)]
                              ELSE [st EXCEPT !.failed = Put(@, e.f, e.b),
                                              !.src = IF Has(@, e.f) THEN @ ELSE Put(@, e.f, <<1, e.b>>)]
@@ -60,12 +64,14 @@ ObsNext(st, e) ==
                      !.want = IF e.f \in st.resolving \cup st.resolved THEN @ ELSE (IF @ >= 0 THEN @ ELSE e.t)]
     [] e.ev = "NotifyCall" -> [st EXCEPT !.want = IF @ >= 0 THEN @ ELSE e.t]
     [] e.ev = "PollCall" -> [st EXCEPT !.open = e.k, !.calls = e.k, !.shown = Shown(e.xs), !.want = -1]
-    [] e.ev = "Yield" -> [st EXCEPT !.resolving = @ \cup {e.f},
+    [] e.ev = "Yield" -> [st EXCEPT !.resolving = @ \cup {e.f}, !.pend = @ \cup {e.f},
                                     !.src = IF Has(@, e.f) THEN @ ELSE Put(@, e.f, <<e.a, e.b>>)]
-    [] e.ev = "YieldRet" -> [st EXCEPT !.resolved = @ \cup {e.f}]
-    [] e.ev = "Observed" /\ e.s = "FINISHED" -> [st EXCEPT !.resolved = @ \cup {e.f}]
+    [] e.ev = "YieldRet" -> [st EXCEPT !.resolved = @ \cup {e.f}, !.pend = @ \ {e.f}]
+    [] e.ev = "Observed" /\ e.s = "FINISHED" -> [st EXCEPT !.resolved = @ \cup {e.f}, !.pend = @ \ {e.f}]
+    [] e.ev = "Observed" /\ e.s \in CancelledStates -> [st EXCEPT !.pend = @ \ {e.f}]
     [] e.ev = "PollRet" ->
           [st EXCEPT !.open = 0, !.lastret = e.t, !.shown = <<>>, !.old = st.ready, !.rold = st.resolved,
+                     !.pend = IF e.a = 1 THEN @ \cup (SeqToSet(st.shown) \ st.resolved) ELSE @,
                      !.resolving = IF e.a = 1 THEN @ \cup SeqToSet(st.shown) ELSE @,
                      \* (the futures it was shown are failed right after the raise: resolved once seen FINISHED)
                      !.src = IF e.a = 1
@@ -83,6 +89,10 @@ ObsNext(st, e) ==
     [] e.ev = "ShutdownCall" -> [st EXCEPT !.down = TRUE, !.want = -1]
     [] OTHER -> st
 
+ObsNext(st, e) ==
+  LET st1 == ObsNext0(st, e) IN
+    [st1 EXCEPT !.lastblk = IF st1.pend \cap st1.cancelling # {} THEN e.t ELSE @]
+
 NoDup(s) == \A i, j \in DOMAIN s : i # j => s[i] # s[j]
 
 Clauses(st, e) ==
@@ -97,14 +107,19 @@ Clauses(st, e) ==
                                   f \in SeqToSet(Shown(e.xs))>>,
      <<"C08_DescriptorsMustNot",
         e.ev = "PollCall" => \A i \in DOMAIN Shown(e.xs) :
-             LET f == Shown(e.xs)[i] IN Has(st.res, f) /\ f \notin st.rold /\ ~Has(st.failed, f)>>,
+             \* (a future whose cancel() has not returned yet may still be shown: its deregistration is part of that call -
+             \*  also when a yield for it, blocked behind a slow cancel function, has meanwhile returned without effect)
+             LET f == Shown(e.xs)[i] IN Has(st.res, f) /\ (f \notin st.rold \/ f \in st.cancelling) /\ ~Has(st.failed, f)>>,
      <<"C08_ResultCarried",
         e.ev = "PollCall" => \A i \in DOMAIN Pairs(e.xs) :
              LET p == Pairs(e.xs)[i] IN Has(st.res, p[1]) => st.res[p[1]] = p[2]>>,
      <<"C08_FirstYieldWins",
         (e.ev = "Observed" /\ e.s = "FINISHED") => (Has(st.src, e.f) /\ st.src[e.f] = <<e.a, e.b>>)>>,
      <<"C08_PromptPoll",
-        (st.want >= 0 /\ st.open = 0 /\ ~st.down) => e.t <= Max(st.want, st.lastret) + SLACK>>,
+        \* (not while the poll thread waits for a future that a client is cancelling - the client's cancel function runs
+        \*  under that future's lock for as long as it likes; as soon as that is over)
+        (st.want >= 0 /\ st.open = 0 /\ ~st.down /\ st.pend \cap st.cancelling = {}) =>
+            e.t <= Max(Max(st.want, st.lastret), st.lastblk) + SLACK>>,
      <<"C08_CancelFnOnlyWhenPolling",
         e.ev = "CancelFnCall" => (Has(st.res, e.f) /\ st.res[e.f] = e.b /\ e.f \in st.cancelling
                                   /\ e.f \notin st.resolved)>>,
